@@ -344,12 +344,14 @@ def spec_desc(s):
 
 # ------------------------------------------------------------------------------------------------------------------ conversion stream
 def declare(decls, toks):
-    """HpProblem.add_hyperparameter for every declaration; returns (problem, accepted indices, errors, corr failure or None)."""
+    """HpProblem.add_hyperparameter for every declaration; returns (problem, accepted indices, errors, first correspondence
+    disagreement or None).  A disagreement does not stop the run: the ORACLES are evaluated first (against the declarations),
+    the disagreement is reported only when they find nothing."""
     from deephyper.hpo import HpProblem
 
     m = model()
     p = HpProblem()
-    accepted, errors = [], {}
+    accepted, errors, bad = [], {}, None
     for i, (name, d) in enumerate(decls):
         try:
             val = build_value(d, name)
@@ -361,16 +363,17 @@ def declare(decls, toks):
             hp = p.add_hyperparameter(val, name)
         except Exception as e:
             errors[i] = type(e).__name__
-            if want:
-                return p, accepted, errors, dict(kind="corr", clause="check_rejected_but_model_accepts", detail=dict(decl=d, error=repr(e)[:200], model=want))
+            if want and bad is None:
+                bad = dict(kind="corr", clause="check_rejected_but_model_accepts", detail=dict(decl=d, error=repr(e)[:200], model=want))
             continue
-        if not want:
-            return p, accepted, errors, dict(kind="corr", clause="check_accepted_but_model_rejects", detail=dict(decl=d, hp=repr(hp)))
-        got = enc_real_hp(hp, toks)
-        if _norm(want[0]) != _norm(got) or hp.name != name:
-            return p, accepted, errors, dict(kind="corr", clause="check_hyperparameter_fields", detail=dict(decl=d, hp=repr(hp), model=want[0], impl=got))
         accepted.append(i)
-    return p, accepted, errors, None
+        if not want:
+            bad = bad or dict(kind="corr", clause="check_accepted_but_model_rejects", detail=dict(decl=d, hp=repr(hp)))
+            continue
+        got = enc_real_hp(hp, toks)
+        if (_norm(want[0]) != _norm(got) or hp.name != name) and bad is None:
+            bad = dict(kind="corr", clause="check_hyperparameter_fields", detail=dict(decl=d, hp=repr(hp), model=want[0], impl=got))
+    return p, accepted, errors, bad
 
 
 def _norm(x):
@@ -391,8 +394,6 @@ def check_conversion(case):
     for _, d in decls:
         res["desc"].append("decl=" + (d["k"] if d["k"] != "obj" else "obj_" + d["o"]["cls"]))
     p, accepted, errors, bad = declare(decls, toks)
-    if bad:
-        return dict(res, ok=False, nontrivial=True, **bad)
     res["desc"].append("accepted=%d" % len(accepted))
     for e in errors.values():
         res["desc"].append("rejected:" + e)
@@ -400,25 +401,34 @@ def check_conversion(case):
     order = list(p.hyperparameter_names)
     res["desc"].append("order=" + ("declaration" if order == names else "sorted" if order == sorted(names) else "other"))
     if not accepted:
-        return res
+        return dict(res, ok=False, nontrivial=True, **bad) if bad else res
     res["nontrivial"] = True
     hps = [(names.index(n) if n in names else -1, enc_real_hp(p.space[n], toks)) for n in order]
     want = m.call(F_CONVSPACE, [family_code(sur), [[i, h] for i, h in hps]])
     try:
         sp = convert_to_skopt_space(p.space, surrogate_model=sur)
     except TypeError as e:
+        if bad:
+            return dict(res, ok=False, **bad)
         if want:
             return dict(res, ok=False, kind="corr", clause="convert_raises_but_model_converts", detail=repr(e)[:200])
         res["desc"].append("convert:TypeError")
         return res
     dims = [enc_dim(dm, names, toks) for dm in sp.dimensions]
+    # ORACLE: the dimensions against the DECLARATIONS (those with a reading; an accepted declaration the model has no reading
+    # for is a correspondence matter, not a failure of the property)
     enc_decls = [[j, enc_decl(decls[i][1], toks)] for j, i in enumerate(accepted)]
-    order_tok = [names.index(n) if n in names else -1 for n in order]
-    ok, clause, idx = m.call(F_OKCONV, [enc_decls, order_tok, dims])
-    if not ok:
-        where = order[idx] if idx < len(order) else None
-        return dict(res, ok=False, clause="conv:" + CONV_CLAUSE.get(clause, str(clause)), sig={"surrogate": sur, "clause": "conv:" + CONV_CLAUSE.get(clause, str(clause))},
-                    detail=dict(order=order, dimension=where, dims=[repr(d) for d in sp.dimensions], declared={n: decls[accepted[names.index(n)]][1] for n in order if n in names}))
+    readable = [j for j, i in enumerate(accepted) if m.call(F_SPEC, enc_decl(decls[i][1], toks))]
+    if len(readable) == len(accepted):
+        order_tok = [names.index(n) if n in names else -1 for n in order]
+        ok, clause, idx = m.call(F_OKCONV, [enc_decls, order_tok, dims])
+        if not ok:
+            where = order[idx] if idx < len(order) else None
+            cl = "conv:" + CONV_CLAUSE.get(clause, str(clause))
+            return dict(res, ok=False, clause=cl, sig={"clause": cl},
+                        detail=dict(order=order, dimension=where, dims=[repr(d) for d in sp.dimensions], declared={n: decls[accepted[names.index(n)]][1] for n in order if n in names}))
+    if bad:
+        return dict(res, ok=False, **bad)
     if (sp.config_space is not None) != (len(p.space.conditions) > 0 or len(p.space.forbidden_clauses) > 0):
         return dict(res, ok=False, kind="corr", clause="config_space_path_flag", detail=None)
     if not want or _norm(want[0]) != _norm(dims):
@@ -451,8 +461,8 @@ def draw(case, problem):
         from deephyper.hpo import CBO
 
         with tempfile.TemporaryDirectory(prefix="vp_c10_") as d:
-            s = CBO(problem, _noop_run, surrogate_model=sur, random_state=seed, n_points=n, n_initial_points=n, filter_duplicated=bool(case.get("filter_duplicated", False)),
-                    log_dir=d, verbose=0)
+            s = CBO(problem, _noop_run, surrogate_model=sur, random_state=seed, n_points=8 if case.get("one_by_one") else n, n_initial_points=n,
+                    filter_duplicated=bool(case.get("filter_duplicated", False)), log_dir=d, verbose=0)
             s._setup_optimizer()
             X = s.ask(n) if not case.get("one_by_one") else [s.ask(1)[0] for _ in range(n)]
             trs = [dm.transform_ for dm in s._opt.space.dimensions]
@@ -561,13 +571,11 @@ def check_sampling(case):
     decls = case["decls"]
     toks = Tokens()
     m = model()
-    sig = {"path": case["path"], "surrogate": case["surrogate"]}
+    sig = {"path": case["path"]}
     res = dict(ok=True, kind="oracle", clause="", nontrivial=False, sig=dict(sig), desc=["path=" + case["path"], "surrogate=%s" % case["surrogate"]])
     p, accepted, errors, bad = declare(decls, toks)
-    if bad:
-        return dict(res, ok=False, **bad)
     if len(accepted) != len(decls):
-        return dict(res, ok=False, kind="corr", clause="sampling_case_declaration_rejected", detail=errors)
+        return dict(res, ok=False, **bad) if bad else dict(res, ok=False, kind="corr", clause="sampling_case_declaration_rejected", detail=errors)
     cond = add_structure(p, case)
     specs = {}
     for name, d in decls:
@@ -628,6 +636,8 @@ def check_sampling(case):
             if pv is not None and pv < P_THRESHOLD:
                 return dict(res, ok=False, clause=tname, sig=dict(dsig, clause=tname),
                             detail=dict(name=name, declared=dict(decls)[name], n=len(col), p=pv, info=info, decided_by="python/scipy (statistical test, level other)"))
+    if bad:
+        return dict(res, ok=False, **bad)
     return res
 
 
@@ -649,7 +659,7 @@ def check_quantile(case):
         lo, hi = case["lo"], case["hi"]
         d = sks.Integer(lo, hi, transform="normalize")
         got = int(d.inverse_transform([u])[0])
-        want = m.call(F_QNORM, [lo, hi, [num, den]])
+        want = m.call(F_QNORM, [lo, hi, [num, den]])[0]
         if got != want:
             return dict(res, ok=False, clause="q_int_normalized", detail=dict(lo=lo, hi=hi, u=[num, den], impl=got, model=want))
     else:
@@ -855,7 +865,11 @@ def gen_sampling(paths, per_path, n_draws):
                 case = dict(decls=decls, surrogate=surs[i % len(surs)], path=path, seed=rng.randint(0, 2 ** 31 - 1), n=n_draws)
                 if path == "cbo_ask":
                     case["filter_duplicated"] = i % 2 == 1
-                    case["one_by_one"] = False
+                    case["one_by_one"] = i % 5 == 2      # 4000 single ask() calls (the _ask path), 8 candidates each, no de-duplication
+                    if case["one_by_one"]:
+                        case["filter_duplicated"] = False
+                if path == "random_search":
+                    case["one_by_one"] = i % 4 == 3
                 if path == "space_rvs":
                     case["rs_object"] = i % 2 == 1
                 if path in ("space_rvs_cs", "random_search") and (path == "space_rvs_cs" or i % 2 == 0):
@@ -891,9 +905,9 @@ def streams(tier):
     th = tier == "thorough"
     n = 16000 if th else 4000
     return [
-        Stream("conversion", gen_conversion(6000 if th else 900), check_conversion, shrink_conversion, timeout=60),
+        Stream("conversion", gen_conversion(30000 if th else 2500), check_conversion, shrink_conversion, timeout=60),
         Stream("normalized_quantile", gen_quantile(3000 if th else 300), check_quantile, None, timeout=30),
-        Stream("space_rvs", gen_sampling(["space_rvs", "space_rvs_cs"], 40 if th else 9, n), check_sampling, shrink_sampling, timeout=300),
-        Stream("optimizer_ask", gen_sampling(["cbo_ask"], 60 if th else 15, n), check_sampling, shrink_sampling, timeout=300),
-        Stream("random_search", gen_sampling(["random_search"], 30 if th else 8, n), check_sampling, shrink_sampling, timeout=300),
+        Stream("space_rvs", gen_sampling(["space_rvs", "space_rvs_cs"], 90 if th else 15, n), check_sampling, shrink_sampling, timeout=300),
+        Stream("optimizer_ask", gen_sampling(["cbo_ask"], 160 if th else 35, n), check_sampling, shrink_sampling, timeout=300),
+        Stream("random_search", gen_sampling(["random_search"], 70 if th else 14, n), check_sampling, shrink_sampling, timeout=300),
     ]
